@@ -349,7 +349,7 @@ func (in *Interp) callValue(caller *Frame, fnv Value, args []Value) Value {
 	panic(fmt.Sprintf("engine: call of %T", fnv))
 }
 
-const maxDepth = 2000
+const maxDepth = 60000
 
 func (in *Interp) callFn(caller *Frame, fn *ssa.Function, args []Value, env []Value) (result Value) {
 	fi := in.info(fn)
